@@ -873,7 +873,10 @@ class Executor:
                 if not ok:
                     self.raise_(st2, sink, "KeyError", origin=f"dict lookup line {getattr(node, 'lineno', '?')}")
                 else:
-                    yield st2, unflat(base.ty.val, [z3.Select(a, key) for a in base.v[1]])
+                    val = unflat(base.ty.val, [z3.Select(a, key) for a in base.v[1]])
+                    if val.ty.kind in ("seq", "set", "map") and base.loc is not None:
+                        val = SV(val.ty, val.v, loc=("mapelem", base.loc, key, base))   # a container stored in a dict: mutations are written back under the key
+                    yield st2, val
             return
         hook = self.w.call_hooks.get(("index", k if k != "ref" else "ref:" + base.ty.cls))
         if hook:
@@ -1262,6 +1265,12 @@ class Executor:
             self.write_back(st, seqloc, SV(seq.ty, new))
             for k, v in keep.items():  # the alias now denotes the updated element
                 st.locals[k] = SV(val.ty, val.v, loc=("elem", seqloc, j, SV(seq.ty, new)))
+            return
+        if loc[0] == "mapelem":
+            _, maploc, key, m = loc
+            newv = coerce(val, m.ty.val)
+            new = SV(m.ty, (z3.Store(m.v[0], key, True), [z3.Store(a, key, t) for a, t in zip(m.v[1], newv.flat())]))
+            self.write_back(st, maploc, new)
             return
         if loc[0] == "local":
             st.locals[loc[1]] = SV(val.ty, val.v)
